@@ -61,6 +61,9 @@ class MultipleOf(Validator):
 
     def _validate(self, value: Any):
         multiple_of = self.params["multipleOf"]
+        if isinstance(multiple_of, float) and multiple_of.is_integer():
+            # `2.0` is the number `2`: integers are compared exactly.
+            multiple_of = int(multiple_of)
         if isinstance(multiple_of, float):
             try:
                 quotient = value / multiple_of
